@@ -9,7 +9,7 @@
    (0 <= k <= n, k = 0 if p = 0, k = n if p = 1; vectors of the requested length; multiplicities
    >= 0; indices in range; distinct when replace=False).  The theorems quantify over ALL such
    histories, all score lists, all easy counts, all four (score_class, equal_class). *)
-From SA Require Import Model.Sampling Proofs.CmFacts Proofs.SamplingFacts.
+From SA Require Import Model.Sampling Proofs.CmFacts Proofs.SamplingFacts Proofs.UniformMeanFacts.
 Open Scope Z_scope.
 
 (* score_class and equal_class are kept (every built-in method) *)
@@ -178,6 +178,44 @@ Theorem C11_mean_parameters_index_partial : forall s bl sp h r h' calls,
     (bl = true -> (draw_mean dp == 1)%Q /\ (draw_mean dn == 1)%Q).
 Proof. exact mean_parameters_index. Qed.
 Print Assumptions C11_mean_parameters_index_partial.
+
+(* Unbiasedness, part 3: the expectation itself, for index draws with replacement under the uniform law.
+   [vectors n k] = all index vectors of length k over [0,n) = exactly the results the model accepts for
+   np.random.choice(n, size=k) (C11_choice_histories); over all of them a fixed source index is drawn k * n^(k-1) times
+   in total, i.e. size / n times per draw on average — the "documented mean" [draw_mean] of the partial theorems above is
+   this average.  That NumPy's generator makes the vectors equally likely is its documented contract, not proved. *)
+Theorem C11_choice_histories : forall n k v,
+  In v (vectors n k) <-> draw_ok (DChoice (Z.of_nat n) (Z.of_nat k) v).
+Proof. intros n k v. split; [apply vectors_ok | apply vectors_complete]. Qed.
+Print Assumptions C11_choice_histories.
+
+Theorem C11_choice_total_multiplicity : forall n k i, 0 <= i < Z.of_nat n ->
+  Z.of_nat n * Zsum (map (mult i) (vectors n k)) = Z.of_nat k * Z.of_nat (length (vectors n k)).
+Proof. intros n k i H. rewrite length_vectors. apply total_multiplicity. exact H. Qed.
+Print Assumptions C11_choice_total_multiplicity.
+
+(* stratified by label, sampling with replacement: the sample's index lists are the two recorded vectors, so summed over
+   all equally likely draws every scored positive (resp. negative) of the source appears exactly once per sample on
+   average: total multiplicity = number of draws.  (No at-least-one correction exists on this path.) *)
+Theorem C11_unbiased_by_label_replacement : forall s,
+  (forall i vn, 0 <= i < len (pos s) -> 0 < len (neg s) ->
+     Zsum (map (fun vp => match sample_indices s true false [DChoice (len (pos s)) (len (pos s)) vp; DChoice (len (neg s)) (len (neg s)) vn] with
+                          | Ok (r, _, _) => mult i (pos_idx r) | Err _ => 0 end) (vectors (length (pos s)) (length (pos s))))
+     = Z.of_nat (length (vectors (length (pos s)) (length (pos s))))) /\
+  (forall j vp, 0 <= j < len (neg s) -> 0 < len (pos s) ->
+     Zsum (map (fun vn => match sample_indices s true false [DChoice (len (pos s)) (len (pos s)) vp; DChoice (len (neg s)) (len (neg s)) vn] with
+                          | Ok (r, _, _) => mult j (neg_idx r) | Err _ => 0 end) (vectors (length (neg s)) (length (neg s))))
+     = Z.of_nat (length (vectors (length (neg s)) (length (neg s))))).
+Proof.
+  intro s. split.
+  - intros i vn Hi Hn. exact (by_label_replacement_unbiased s i Hi Hn vn).
+  - intros j vp Hj Hp. exact (by_label_replacement_unbiased_neg s j Hj Hp vp).
+Qed.
+Print Assumptions C11_unbiased_by_label_replacement.
+
+(* the 27 index vectors of three draws from three: index 1 is drawn 27 times in total *)
+Example C11_uniform_example : length (vectors 3 3) = 27%nat /\ Zsum (map (mult 1) (vectors 3 3)) = 27.
+Proof. split; vm_compute; reflexivity. Qed.
 
 (* non-vacuity: a concrete non-stratified replacement run that goes through the "at least one
    negative" and "at least one hard positive" corrections, within the contract *)
